@@ -290,6 +290,145 @@ type DeadlineCase struct {
 	// (server or network silent): the waiter must be back by the deadline all the same - with the context's error or with
 	// the connection's own, never with nil or ErrNotExist
 	StallPoll int `json:"stall_poll,omitempty"`
+	// Joiner (with StallPoll): the first waiter has time (3 s); while the reply of its StallPoll-th poll is withheld (500 ms) the
+	// key is rewritten through another client and a SECOND waiter is started on the same client with the NEW version and a
+	// deadline of 600 + Ms ms (beyond the arrival of the withheld reply): for it nothing has changed - it must stay blocked until its deadline; the first waiter must end with nil
+	Joiner bool `json:"joiner,omitempty"`
+	// Repeat (with StallPoll): that many waiters in a row on one client with a pool of two connections, each losing the
+	// reply of its StallPoll-th poll across its deadline; afterwards an ordinary waiter on the same client must see an ordinary change
+	Repeat int `json:"repeat,omitempty"`
+}
+
+func wireClient(m *miniredis.Miniredis, w *wireSrv, pool int) kvs.Storage {
+	dial := func(ctx context.Context, network, addr string) (net.Conn, error) {
+		cn, err := (&net.Dialer{}).DialContext(ctx, network, addr)
+		if err != nil {
+			return nil, err
+		}
+		return &wireConn{Conn: cn, w: w}, nil
+	}
+	return kvredis.New(&goredis.Options{Addr: m.Addr(), Dialer: dial, ReadTimeout: time.Minute, WriteTimeout: time.Minute, PoolTimeout: time.Minute, MaxRetries: -1, PoolSize: pool})
+}
+
+// runJoiner: see DeadlineCase.Joiner.
+func runJoiner(c DeadlineCase) *vstat.Violation {
+	m, err := miniredis.Run()
+	if err != nil {
+		return vstat.V("redis:setup", "miniredis: %v", err)
+	}
+	defer m.Close()
+	w := &wireSrv{m: m, last: time.Now(), plan: map[int]time.Duration{c.StallPoll - 1: 500 * time.Millisecond}, replyOnly: true}
+	st := wireClient(m, w, 16)
+	defer st.(interface{ Close() error }).Close()
+	raw := kvredis.New(&goredis.Options{Addr: m.Addr()})
+	defer raw.(interface{ Close() error }).Close()
+	bg := context.Background()
+	r1, err := st.Put(bg, kvs.Record{Key: "jo", Value: []byte("1")})
+	if err != nil {
+		return vstat.V("redis:setup", "Put: %v", err)
+	}
+	w.mu.Lock()
+	w.armed, w.t0 = true, time.Now()
+	w.mu.Unlock()
+	ctx1, cancel1 := context.WithTimeout(bg, 3*time.Second)
+	defer cancel1()
+	res1 := make(chan error, 1)
+	go func() { res1 <- st.WaitForVersionChange(ctx1, "jo", r1.Version) }()
+	// wait until the poll whose reply is withheld has been sent
+	for t := time.Now(); ; time.Sleep(200 * time.Microsecond) {
+		w.mu.Lock()
+		sent := w.n >= c.StallPoll
+		w.mu.Unlock()
+		if sent {
+			break
+		}
+		if time.Since(t) > 2*time.Second {
+			return nil // the waiter did not get that far (it polls with growing pauses): nothing to judge
+		}
+	}
+	time.Sleep(2 * time.Millisecond) // the server has answered; the answer is on hold
+	r2, err := raw.Put(bg, kvs.Record{Key: "jo", Value: []byte("2")})
+	if err != nil {
+		return vstat.V("redis:setup", "Put: %v", err)
+	}
+	dl := 600*time.Millisecond + time.Duration(c.Ms)*time.Millisecond // beyond the moment the withheld reply arrives
+	ctx2, cancel2 := context.WithTimeout(bg, dl)
+	defer cancel2()
+	t2 := time.Now()
+	err2 := st.WaitForVersionChange(ctx2, "jo", r2.Version)
+	took2 := time.Since(t2)
+	w.mu.Lock()
+	log := strings.Join(w.log, " | ")
+	w.mu.Unlock()
+	if err2 == nil || isClass(err2, gerrors.ErrNotExist) {
+		return vstat.V("redis:wait-spurious", "a waiter started with the CURRENT version %s of the key (written a moment before through another client) returned %v after %v although nothing changed afterwards; another waiter of the same client had a poll in flight whose reply (the previous version) was being withheld; commands: %s", r2.Version, err2, took2, log)
+	}
+	select {
+	case err1 := <-res1:
+		if err1 != nil {
+			return vstat.V("redis:wait-result", "the first waiter (version %s, rewritten to %s while the reply of its poll #%d was withheld) returned %v, want nil; commands: %s", r1.Version, r2.Version, c.StallPoll-1, err1, log)
+		}
+	case <-time.After(2 * time.Second):
+		return vstat.V("redis:wait-not-woken", "the first waiter (version %s, rewritten to %s while the reply of its poll #%d was withheld for 500 ms) has not returned 2 s after the second waiter's deadline; commands: %s", r1.Version, r2.Version, c.StallPoll-1, log)
+	}
+	return nil
+}
+
+// runRepeat: see DeadlineCase.Repeat.
+func runRepeat(c DeadlineCase) *vstat.Violation {
+	m, err := miniredis.Run()
+	if err != nil {
+		return vstat.V("redis:setup", "miniredis: %v", err)
+	}
+	defer m.Close()
+	dl := time.Duration(c.Ms) * time.Millisecond
+	w := &wireSrv{m: m, last: time.Now(), plan: map[int]time.Duration{}, replyOnly: true}
+	st := wireClient(m, w, 2)
+	defer st.(interface{ Close() error }).Close()
+	bg := context.Background()
+	r0, err := st.Put(bg, kvs.Record{Key: "rp", Value: []byte("0")})
+	if err != nil {
+		return vstat.V("redis:setup", "Put: %v", err)
+	}
+	w.mu.Lock()
+	w.armed, w.t0 = true, time.Now()
+	w.mu.Unlock()
+	for i := 0; i < c.Repeat; i++ {
+		w.mu.Lock()
+		w.plan[w.n+c.StallPoll-1] = dl + 500*time.Millisecond
+		w.mu.Unlock()
+		ctx, cancel := context.WithTimeout(bg, dl)
+		t0 := time.Now()
+		werr := st.WaitForVersionChange(ctx, "rp", r0.Version)
+		took := time.Since(t0)
+		cancel()
+		if werr == nil || isClass(werr, gerrors.ErrNotExist) {
+			return vstat.V("redis:wait-spurious", "waiter %d of %d in a row (key untouched, a poll reply withheld across its %d ms deadline) returned %v after %v", i+1, c.Repeat, c.Ms, werr, took)
+		}
+		if took > dl+1500*time.Millisecond {
+			return nil // a stalled machine: nothing to judge
+		}
+	}
+	w.mu.Lock()
+	w.plan = map[int]time.Duration{}
+	w.mu.Unlock()
+	ctx, cancel := context.WithTimeout(bg, 3*time.Second)
+	defer cancel()
+	res := make(chan error, 1)
+	go func() { res <- st.WaitForVersionChange(ctx, "rp", r0.Version) }()
+	time.Sleep(50 * time.Millisecond)
+	if _, err := st.Put(bg, kvs.Record{Key: "rp", Value: []byte("1")}); err != nil {
+		return vstat.V("redis:setup", "Put: %v", err)
+	}
+	select {
+	case werr := <-res:
+		if werr != nil {
+			return vstat.V("redis:wait-result", "after %d waiters in a row had lost a poll reply across their deadlines on this client (pool of 2 connections), an ordinary waiter returned %v for an ordinary change, want nil", c.Repeat, werr)
+		}
+	case <-time.After(1500 * time.Millisecond):
+		return vstat.V("redis:wait-not-woken", "after %d waiters in a row had lost a poll reply across their deadlines on this client (pool of 2 connections), an ordinary waiter is still blocked 1.5 s after the key got a new version", c.Repeat)
+	}
+	return nil
 }
 
 // runStalledPoll: see DeadlineCase.StallPoll. Own server, own connection wrapper.
@@ -340,6 +479,17 @@ func runStalledPoll(c DeadlineCase) *vstat.Violation {
 }
 
 func runDeadline(t vstat.TB, c DeadlineCase) *vstat.Violation {
+	if c.StallPoll > 0 && (c.Joiner || c.Repeat > 0) {
+		run := runJoiner
+		if c.Repeat > 0 {
+			run = runRepeat
+		}
+		v := run(c)
+		if v != nil && (v.Sig == "redis:wait-not-woken" || v.Sig == "redis:wait-spurious") {
+			v = run(c) // time is involved: confirmed once
+		}
+		return v
+	}
 	if c.StallPoll > 0 {
 		v := runStalledPoll(c)
 		if v != nil && v.Sig == "redis:wait-outlives-deadline" {
@@ -405,6 +555,8 @@ func TestC07Deadline(t *testing.T) {
 	for i, ms := range []int{60, 150, 250, 400} {
 		cases = append(cases, DeadlineCase{Backend: "redis", Ms: ms, StallPoll: 1 + i})
 	}
+	cases = append(cases, DeadlineCase{Backend: "redis", Ms: 200, StallPoll: 1, Joiner: true}, DeadlineCase{Backend: "redis", Ms: 250, StallPoll: 3, Joiner: true},
+		DeadlineCase{Backend: "redis", Ms: 60, StallPoll: 1, Repeat: 3}, DeadlineCase{Backend: "redis", Ms: 90, StallPoll: 2, Repeat: 5})
 	run := func(tb vstat.TB, batch []DeadlineCase) {
 		viols := make([]*vstat.Violation, len(batch))
 		var wg sync.WaitGroup
@@ -419,6 +571,12 @@ func TestC07Deadline(t *testing.T) {
 			if c.StallPoll > 0 {
 				cl = append(cl, "deadline_waiter_with_a_withheld_poll_reply")
 			}
+			if c.Joiner {
+				cl = append(cl, "second_waiter_started_while_a_poll_reply_of_the_first_is_withheld")
+			}
+			if c.Repeat > 0 {
+				cl = append(cl, "waiters_in_a_row_losing_a_poll_reply_across_their_deadline")
+			}
 			st.Case(true, vstat.Hash(c), func() any { return c }, cl...)
 		}
 	}
@@ -432,6 +590,15 @@ func TestC07Deadline(t *testing.T) {
 				c.Change = rapid.IntRange(1, c.Ms).Draw(rt, "changeAt")
 			} else if c.Backend == "redis" && rapid.IntRange(0, 3).Draw(rt, "stalledPoll") == 0 {
 				c.StallPoll = 1 + rapid.IntRange(0, 5).Draw(rt, "poll")
+				switch rapid.IntRange(0, 3).Draw(rt, "stallKind") {
+				case 0:
+					c.Joiner = true
+					c.Ms = max(c.Ms, 120)
+				case 1:
+					c.Repeat = rapid.IntRange(2, 6).Draw(rt, "repeat")
+					c.Ms = min(c.Ms, 150)
+					c.StallPoll = min(c.StallPoll, 3)
+				}
 			}
 			c.Idx = i
 			batch = append(batch, c)
